@@ -2,3 +2,5 @@ import CanVerif.Props.C01
 import CanVerif.Props.C02
 import CanVerif.Props.C17
 import CanVerif.Props.C08
+import CanVerif.Props.C06
+import CanVerif.Props.C07
